@@ -443,6 +443,12 @@ func registerIntrinsics(P *Program) {
 		return nil
 	}
 	in["runtime.KeepAlive"] = func(fr *frame, args []Value) Value { return nil }
+	// call-stack introspection (diagnostics only): unknown caller
+	in["runtime.Caller"] = func(fr *frame, args []Value) Value {
+		tb := fr.m.tb
+		return Tuple{tb.Const(64, 0), Str{}, tb.Const(64, 0), tb.False()}
+	}
+	in["runtime.Callers"] = func(fr *frame, args []Value) Value { return fr.m.tb.Const(64, 0) }
 	in["runtime.SetFinalizer"] = func(fr *frame, args []Value) Value { return nil }
 	in["runtime.GOMAXPROCS"] = func(fr *frame, args []Value) Value { return fr.m.tb.Const(64, 1) }
 	in["runtime.NumCPU"] = func(fr *frame, args []Value) Value { return fr.m.tb.Const(64, 1) }
